@@ -517,10 +517,20 @@ func runAmbient(t *testing.T) {
 			spawnFailure = err.Error()
 			return
 		}
-		b, err := w.spawn(w.b, bf)
+		// child B runs the batch in reverse order: a result that depended on
+		// what ran before in the same process would differ as well
+		rev := batchFile{Mode: bf.Mode, Cases: make([]ambCase, len(bf.Cases))}
+		for i, c := range bf.Cases {
+			rev.Cases[len(bf.Cases)-1-i] = c
+		}
+		rb, err := w.spawn(w.b, rev)
 		if err != nil {
 			spawnFailure = err.Error()
 			return
+		}
+		b := make([]string, len(rb))
+		for i := range rb {
+			b[len(rb)-1-i] = rb[i]
 		}
 		for i, c := range bf.Cases {
 			rec.Eval()
